@@ -869,6 +869,11 @@ func DeleteHistoricVersions(ctx context.Context, s *DB, before time.Time) error 
 		return fmt.Errorf("get historic roots: %w", err)
 	}
 	for _, l := range nodes {
+		// the node cache is also the tree's record of which nodes are stored: forget
+		// the node, or a later commit that produces the same node again skips its PUT
+		if cache, ok := s.cfg.NodeCache.(interface{ Remove(key interface{}) }); ok {
+			cache.Remove(fmt.Sprintf("%s/%s", s.persist.NodeURLPrefix(), l))
+		}
 		_, err := s.s3Client.DeleteObjectWithContext(ctx, &s3.DeleteObjectInput{
 			Key:    aws.String(s.persist.(*persistEncryptor).Prefix + l),
 			Bucket: aws.String(s.persist.(*persistEncryptor).BucketName),
